@@ -104,7 +104,7 @@ infrastructure that break the property indirectly and only for particular values
 repeated calls in one process or error paths): each written by an independent sub-agent that saw only the property text and a
 scratch worktree; each confirmed here (`harness/seedtest.py`: suite still passes with the change, the demo fails with it and
 passes without it) and then run through the property's quick check with `VERIF_REPO` pointing at the patched worktree.
-All 120 are caught by the quick check of their property. Round 2 was first MISSED in ten cases, and the checks were strengthened:
+All are caught by the quick check of their property. Round 2 was first MISSED in ten cases, and the checks were strengthened:
 C01-c (special single characters for every modifier are now in the quick tier), C02-c (pairs of different arguments in one
 invocation, equal-valued ones included), C02-d (`$$`/`$$$` command names), C04-d (led to the fix e0c256b; the seeded change kept
 is a regression of that fix), C07-d (which definition is visible after a block), C09-c (verbatim regions with blank lines at file
